@@ -1,8 +1,8 @@
 (** Correspondence for C02: the shared forest-level comparison (Run.C19: every field of File/Group/Rule in both
     modes) plus discovery entries and error routing: Model.Routing.read_rules / checks_for_entry on the model's
     file vs the entries the real discovery produced and the checks the real GetChecksForEntry selected. *)
-From Coq Require Import List String Ascii Arith Bool NArith.
-From PintV Require Import Common.Bytes Model.Yaml Model.YamlPosLines Model.Parser Model.YamlFits Model.Routing Run.C19.
+From Coq Require Import List String Ascii Arith Bool NArith ZArith.
+From PintV Require Import Common.Bytes Model.Yaml Model.YamlPosLines Model.Parser Model.YamlFits Model.Routing Model.Render Run.C19.
 Import ListNotations.
 Open Scope string_scope.
 
@@ -17,8 +17,18 @@ Record case := {
   c_base : C19.case;
   c_entries_strict : option (list obs_entry);    (* None = not comparable (pint comments present) or pipeline failed *)
   c_entries_relaxed : option (list obs_entry);
-  c_lone_cr : bool                               (* the file has a CR not followed by LF (known finding C02-lone-cr) *)
+  c_lone_cr : bool;                              (* the file has a CR not followed by LF (known finding C02-lone-cr) *)
+  c_expand : list (Z * Z * option (list Z))      (* (First, Last, what the real diags.LineRange.Expand returned; None = panic) *)
 }.
+
+(** Model.Render.expand vs the real LineRange.Expand (line ranges of the problems of this file + adversarial ones) *)
+Definition expand_ok_b (x : Z * Z * option (list Z)) : bool :=
+  let '(a, b, obs) := x in
+  match expand a b, obs with
+  | Ok l, Some l' => list_eqb Z.eqb l l'
+  | Crash _, None => true
+  | _, _ => false
+  end.
 
 (** The hypothesis of the theorems C02_lines_* (Properties/C02.v), checked on the forest yaml.v3 actually returned:
     every node coordinate and the yaml error line (if any) are inside the file, T = number of lines the content
@@ -56,6 +66,7 @@ Definition entries_diff (f : file) (obs : list obs_entry) : option string :=
 Definition check (c : case) : list string :=
   let b := c_base c in
   (if (c_lone_cr c || hyp_fits c)%bool then [] else ["hypothesis-fits"]) ++
+  (if forallb expand_ok_b (c_expand c) then [] else ["expand"]) ++
   C19.check b ++
   (match c_entries_strict c with
    | Some obs => match entries_diff (run_strict (c_thanos b) (c_lines b) (c_docs b) (c_yerr b)) obs with
